@@ -66,11 +66,11 @@ def produce(c, binhash):
         vlib.run_vh(["harbor", "--rootout", os.path.join(d, "root.ndjson")])
         with open(os.path.join(d, "MC_Harbor_run.cfg"), "w") as f:
             f.write('SPECIFICATION Spec\nCONSTANTS RootFile = "root.ndjson"  Depth = %d\n'
-                    'INVARIANTS M_Custody M_Count M_Totals M_Backed M_Floor M_Ceiling M_NonNeg\nCONSTRAINT DepthBound\nVIEW StView\nCHECK_DEADLOCK FALSE\n' % t["mdepth"])
+                    'INVARIANTS M_Custody M_Count M_Totals M_Backed M_Floor M_Ceiling M_NonNeg M_V1Held\nCONSTRAINT DepthBound\nVIEW StView\nCHECK_DEADLOCK FALSE\n' % t["mdepth"])
         actsfile = os.path.join(d, "acts.txt")
         r = vlib.model_check(d, "MC_Harbor", "MC_Harbor_run.cfg", workers=8, timeout=1500, tfile=actsfile, heap="6g")
         mstats["generated"] += r["generated"]; mstats["distinct"] += r["distinct"]
-        mstats["configs"].append("MC_Harbor depth %d: %d generated / %d distinct states, invariants M_Custody M_Count M_Totals M_Backed M_Floor M_Ceiling M_NonNeg hold" % (t["mdepth"], r["generated"], r["distinct"]))
+        mstats["configs"].append("MC_Harbor depth %d: %d generated / %d distinct states, invariants M_Custody M_Count M_Totals M_Backed M_Floor M_Ceiling M_NonNeg M_V1Held hold" % (t["mdepth"], r["generated"], r["distinct"]))
         vlib.run_vh(["harbor", "--acts", actsfile, "--out", logf, "--seed", str(c.seed), "--runs", str(t["runs"]), "--steps", str(t["steps"]),
                      "--depth", str(t["depth"]), "--maxnodes", str(t["maxnodes"]), "--sweep", sweepfile, "--sweepmax", str(t["sweepmax"])], timeout=3000)
         tr = vlib.trace_check_chunked(d, "Trace_Harbor", "Trace_Harbor.cfg", logf, chunk_nodes=12000, ptr_fields=["st.root"],
